@@ -145,7 +145,8 @@ let () =
             Buffer.add_string buf (" A:" ^ nm ^ "[" ^ show_state (atoms_st ks e) ^ "]")) (Lazy.force menu);
         Buffer.add_string buf (" CO[" ^ String.concat " ; " (List.map (fun (x, n) -> show_res (coeff e x n)) cqs) ^ "]");
         Buffer.add_string buf ("\t#G:" ^ (if guard_set_binder e then "1" else "0") ^ (if guard_subs e then "1" else "0")
-                               ^ (if tree_ok e then "1" else "0") ^ closure_exact_flag e);
+                               ^ (if tree_ok e then "1" else "0") ^ closure_exact_flag e
+                               ^ (if nums_ok e then "1" else "0"));
         print_endline (Buffer.contents buf)
       with
       | Unsupported m -> print_endline ("UNSUPPORTED " ^ m)
